@@ -18,6 +18,7 @@ Decided:
 Not decided: Bessel asymptote, closed-form wire impedance values (numeric).
 """
 import ast
+import re
 from ..model import AnalysisError, walk_no_nested, norm, dotted, parent, const_value, is_const
 from ..dataflow import product_of, sum_terms
 from ..rules import loops_in, loop_reaches_on_all_paths, assigns_to_attr, calls_in
@@ -219,6 +220,36 @@ def check_weights(ctx, ck):
         ok = ok and len(args) == 2 and args[0] == 'self.f' and _re.match(r'^self\.loads\[_k\d+\]$', recv) is not None \
             and _re.match(r'^%s\.pulses\[_k\d+\]$' % _re.escape(recv), args[1]) is not None
     ck.ob('R-SIB.weight', 'payload', ok, where, 'adds %s' % sorted(seen)[:1])
+
+
+def check_add_pulse(ctx, ck, rule='R-EXH.attach'):
+    """_Load.add_pulse attaches the pulse it is given: one append of that pulse, on every path - or skipped only when
+    this very pulse is attached already (a membership test on the pulse itself or its global index `idx`).  A test
+    keyed by anything else (`pulse.n`, the row inside its object) makes pulses of different objects look the same
+    and silently drops attachments.  Shared with C17."""
+    from ..cfg import must_atoms
+    m = ctx.model
+    ap = m.func('mininec._Load.add_pulse')
+    pname = ap.params[1] if len(ap.params) > 1 else 'pulse'
+    fl = ctx.flow(ap)
+    apps = [c for c in walk_no_nested(ap.node) if isinstance(c, ast.Call) and isinstance(c.func, ast.Attribute)
+            and c.func.attr == 'append' and norm(c.func.value) == 'self.pulses' and len(c.args) == 1]
+    if len(apps) != 1 or norm(apps[0].args[0]) != pname:
+        ck.ob(rule, ap.qual, False, ap.loc(), 'add_pulse appends the pulse once: %d appends to self.pulses' % len(apps))
+        return
+    bad = None
+    for t_, b_ in must_atoms(fl.cfg, fl.node_id_of(apps[0])):
+        if not isinstance(t_, str):
+            continue
+        mo = re.match(r'^(.+) (not in|in) (.+)$', t_)
+        if mo and (pname in mo.group(1)):
+            key = mo.group(1).strip()
+            if key not in (pname, '%s.idx' % pname, 'id(%s)' % pname):
+                bad = bad or ('the pulse is skipped when `%s` is already known: `%s` is not the identity of the pulse '
+                              '(pulses of different objects share it), attachments are silently dropped' % (key, key))
+        elif pname in t_:
+            raise AnalysisError('%s: the pulse is attached under a test that is not understood: %s' % (ap.qual, t_))
+    ck.ob(rule, ap.qual, bad is None, ap.loc(apps[0]), bad or 'add_pulse appends the pulse once')
 
 
 def check_option_parameter(ctx, ck, rule='R-KIND.option-parameter'):
@@ -716,9 +747,7 @@ def run(ctx, ck):
     ok = ok and len(apps) >= 1
     ck.ob('R-EXH.attach', rl.qual + '|register-once', ok, rl.loc(),
           'a load is numbered len(self.loads) and appended only under `<load>.n is None` (%d sites)' % len(apps))
-    ap = m.func('mininec._Load.add_pulse')
-    ok = [norm(s) for s in ap.body()] == ['self.pulses.append(pulse)']
-    ck.ob('R-EXH.attach', ap.qual, ok, ap.loc(), 'add_pulse appends the pulse once')
+    check_add_pulse(ctx, ck, 'R-EXH.attach')
 
     # junction pulses between a loaded and an unloaded wire
     ck.rule('R-SYM.junction-loads', 'a junction pulse gets the distributed load of whichever of its two wires is loaded')
